@@ -11,7 +11,7 @@ LEAN = ["PV.NH.inv_left", "PV.NH.inv_right", "PV.NH.C05_inverse_left", "PV.NH.C0
 def check(tier, seed):
     d = Decision("C05", tier, seed)
     specs = (specs_evals(tier, algs=("nonhermitian",)) + specs_wiring(tier, algs=("nonhermitian",)) + specs_product(tier) + specs_index(tier)
-             + specs_solver(tier) + specs_masks(tier))
+             + specs_solver(tier) + specs_masks(tier) + [("contracts.frame", "unit_frame", {})])
     # explicit (R, L) biorthogonal bases and implicit mode: projected Hamiltonian, complement projector, direct solver (both orientations)
     from .format_props import specs_projection
     from .implicit_props import specs_direct
